@@ -278,8 +278,17 @@ func (c *client) SendBatch(ctx context.Context, batch []hrpc.Call) (
 	backoff := backoffStart
 
 	for {
-		rpcByClient, ok := c.findClients(ctx, batch, res)
+		// findClients reports errors by position in the batch it is given. On a
+		// retry round that is not the position of the call in res, so map
+		// them back through rpcToRes.
+		found := make([]hrpc.RPCResult, len(batch))
+		rpcByClient, ok := c.findClients(ctx, batch, found)
 		if !ok {
+			for i, rpc := range batch {
+				if found[i].Error != nil {
+					res[rpcToRes[rpc]] = found[i]
+				}
+			}
 			return res, false
 		}
 		sendBatchSplitCount.Observe(float64(len(rpcByClient)))
